@@ -57,6 +57,8 @@ THEOREMS = [
     "Verif.C15.amplitude_constraint_simplex",
     "Verif.C15.reported_parameters_spec",
     "Verif.C15.one_free_amplitude_reported_on_simplex",
+    "Verif.C15.default_guess_spec",
+    "Verif.C15.default_guess_accepted",
     "Verif.C15.one_component_mle",
     "Verif.C15.mle_scalar_limit",
     "Verif.C15.one_component_mle_within_bounds",
@@ -72,6 +74,9 @@ THEOREMS = [
     "Verif.C15.gradient_discrete_correct_tau",
     "Verif.C15.jacobian_is_gradient_amp",
     "Verif.C15.jacobian_is_gradient_tau",
+    "Verif.C15.mask_inactive_within_bounds",
+    "Verif.C15.mask_active_drops_boundary_term",
+    "Verif.C15.clip_active_replaces_amplitude",
 ]
 RULE = (
     "small scope (likelihood: 1-3 components on a grid of amplitudes in quarters and lifetimes in {0.1,1,10}, windows "
@@ -943,7 +948,8 @@ def impl_assemble(case):
     import scipy.optimize
 
     n = case["n"]
-    params = np.array([float(Fraction(p)) for p in case["params"]], dtype=float)
+    # params None = initial_guess=None: the default guess every public DwelltimeModel fit starts from
+    params = None if case["params"] is None else np.array([float(Fraction(p)) for p in case["params"]], dtype=float)
     mask = None if case["mask"] is None else np.array(case["mask"], dtype=bool)
     t, tmin, tmax, step, _ = lik_args(case)
     probe = np.array(case["probe"], dtype=float)
@@ -1395,7 +1401,9 @@ def ops(case):
         n = len(case["t"])
         lo = float(np.min(arr(case["tmin"], n)))
         hi = float(np.max(arr(case["tmax"], n)))
-        return [f"c15.assemble {case['n']} {enc_list(case['params'], enc_rat)} {mask} {fl(case['probe'])} "
+        params = ("D:" + enc_rat(float(np.mean(np.array(case["t"], dtype=float)))) if case["params"] is None
+                  else enc_list(case["params"], enc_rat))
+        return [f"c15.assemble {case['n']} {params} {mask} {fl(case['probe'])} "
                 f"{lik_tokens(case)} {enc_float(lo)} {enc_float(hi)}"]
     if k == "constraint":
         mask = "N" if case["mask"] is None else enc_list(case["mask"], enc_bool)
@@ -1702,7 +1710,12 @@ def oracle_assemble(case, ia):
     if a == "?":
         return None
     n = case["n"]
-    params = [Fraction(p) for p in case["params"]]
+    if case["params"] is None:
+        # documented default: equal amplitudes; lifetimes proportional to 1..n with the sample mean as their average
+        mean = Fraction(float(np.mean(np.array(case["t"], dtype=float))))
+        params = [Fraction(1, n)] * n + [mean * n * k / sum(range(1, n + 1)) for k in range(1, n + 1)]
+    else:
+        params = [Fraction(p) for p in case["params"]]
     fixed = [False] * (2 * n) if case["mask"] is None else list(case["mask"])
     sum_fixed = sum(p for p, f in zip(params[:n], fixed[:n]) if f)
     free = [i for i in range(n) if not fixed[i]]
@@ -1729,7 +1742,7 @@ def oracle_assemble(case, ia):
         elif i < n and not fixed[i]:
             if abs(Fraction(rep[i]) - (1 - sum_fixed)) > Fraction(1, 10**12):
                 return f"amplitudes-sum-to-one: the only free amplitude is reported as {rep[i]!r}, the fixed ones sum to {float(sum_fixed)}"
-        elif Fraction(rep[i]) != params[i]:
+        elif abs(Fraction(rep[i]) - params[i]) > Fraction(1, 10**12) * abs(params[i]):
             return f"fixed-parameter-changed: parameter {i} was fixed at {float(params[i])!r}, reported is {rep[i]!r}"
     if k and (len(x0) != k or len(lo) != k or len(hi) != k):
         return f"optimiser-arguments: {k} parameters are fitted, start vector/bounds have {len(x0)}/{len(lo)}/{len(hi)} entries"
@@ -2335,6 +2348,35 @@ def gen_fit(rng, tier, i):
             "tmax": tmax, "step": step, "subseed": i}
 
 
+def small_scope_fits():
+    """every combination of {1, 2 components} x {continuous, discretised} x {scalar limits, two windows} x {tmax finite,
+    inf} on deterministic data (quantiles of the components inside each window): the ops that only fits reach (bounds,
+    pdfpool, quadpool, the closed form, the gradients handed to SLSQP) are run on all of them in every run"""
+    qs = [(k + 0.5) / 12.0 for k in range(12)]
+    for n in (1, 2):
+        amps, taus = ([1.0], [1.5]) if n == 1 else ([0.4, 0.6], [0.6, 4.0])
+        for step in (None, 0.25):
+            for windows in ([(0.5, 12.5)], [(0.5, 12.5), (1.0, 21.0)]):
+                for unbounded in (False, True):
+                    t, lo, hi, st = [], [], [], []
+                    for (a, b) in windows:
+                        b_ = math.inf if unbounded else b
+                        for tau in taus:
+                            for q in qs:
+                                x = a - tau * math.log(1.0 - q)
+                                if step is not None:
+                                    x = a + float(math.floor((x - a) / step + 0.5)) * step
+                                if x <= b_ and (step is not None or x > a):
+                                    t.append(x)
+                                    lo.append(a)
+                                    hi.append("inf" if unbounded else b)
+                                    st.append(step)
+                    scalar = len(windows) == 1
+                    yield {"stream": "small-scope", "op": "fit", "ncomp": n, "gen_amps": amps, "gen_taus": taus, "t": t,
+                           "tmin": lo[0] if scalar else lo, "tmax": hi[0] if scalar else hi,
+                           "step": None if step is None else (step if scalar else st)}
+
+
 def gen_likwin(rng, i):
     """parameters inside the lifetime search bounds at which the window probability of some observation is below the range
     of doubles: observation limits of two kymographs whose minimum observable times differ by a factor 160-2000 (what
@@ -2401,6 +2443,8 @@ def gen_assemble(rng, tier, i):
         mask[[i for i in range(n) if mask[i]][0]] = False
     case = {"stream": "random-assemble", "op": "assemble", "n": n, "params": [str(p) for p in amps + taus], "mask": mask,
             "t": t, "tmin": tmin, "tmax": tmax, "step": step, "subseed": i}
+    if rng.chance(0.25):
+        case["params"] = None  # initial_guess=None: the default guess (always a valid amplitude specification)
     qa = simplex(rng, n) if rng.chance(0.5) else [rng.loguniform(1e-3, 0.9) for _ in range(n)]
     full = qa + [x * rng.loguniform(0.5, 2.0) for x in pt]
     case["probe"] = [v for v, f in zip(full, assemble_fitted(case)) if f]
@@ -2747,16 +2791,17 @@ def cases(tier, rng):
     for i in range(sizes["likwin"]):
         yield gen_likwin(r.fork(i), i)
     # ---- small scope: what is handed to the optimiser, every mask for n <= 2 x amplitude vectors x model kind
-    for n, amp_sets, taus in ((1, [["1"], ["1/2"]], ["1/2"]), (2, [["1/4", "3/4"], ["1/2", "1/4"], ["3/4", "1/2"]], ["1/2", "4"])):
+    for n, amp_sets, taus in ((1, [["1"], ["1/2"], None], ["1/2"]), (2, [["1/4", "3/4"], ["1/2", "1/4"], ["3/4", "1/2"], None], ["1/2", "4"])):
         for amps in amp_sets:
             for mask in [None] + [list(m) for m in itertools.product([False, True], repeat=2 * n)]:
                 for step in (None, 0.25):
                     for tmax in (6.0, "inf"):
-                        c = {"stream": "small-scope", "op": "assemble", "n": n, "params": amps + taus, "mask": mask,
+                        c = {"stream": "small-scope", "op": "assemble", "n": n, "params": None if amps is None else amps + taus, "mask": mask,
                              "t": [0.5, 0.75, 1.5, 4.0], "tmin": 0.5, "tmax": tmax, "step": step}
                         full = ([0.3, 0.6] if n == 2 else [0.9]) + ([0.7, 3.0] if n == 2 else [1.1])
                         c["probe"] = [v for v, f in zip(full, assemble_fitted(c)) if f]
                         yield c
+    yield from small_scope_fits()
     r = rng.fork("c15-assemble")
     for i in range(sizes["assemble"]):
         yield gen_assemble(r.fork(i), tier, i)
@@ -2795,7 +2840,7 @@ def extra_coverage(results):
     deep = {"cases": 0, "depth-745-1000": 0, "depth-1000-2500": 0, "depth-2500-5000": 0, "tmax-inf": 0, "discretised": 0}
     mle1 = {"closed-form-inside-the-bounds": 0, "closed-form-below-the-lower-bound": 0}
     asm = {"cases": 0, "ValueError": 0, "nothing-to-fit": 0, "all-fitted": 0, "some-fixed": 0, "one-free-amplitude": 0,
-           "fixed-lifetime": 0, "constraint-handed": 0}
+           "fixed-lifetime": 0, "constraint-handed": 0, "default-initial-guess": 0}
     handed = {"fits": 0, "gradient-requests": 0, "inside-the-explored-family": 0, "fits-with-a-request-checked": 0,
               "checked-with-an-amplitude-below-1e-3": 0, "checked-with-an-amplitude-below-1e-6": 0}
     pooled = {"fits-with-array-limits": 0, "several-distinct-windows": 0, "density-integrated": 0, "points-outside-some-window": 0}
@@ -2846,6 +2891,7 @@ def extra_coverage(results):
                 asm["one-free-amplitude"] += sum(1 for f in fixed[: c["n"]] if not f) == 1
                 asm["fixed-lifetime"] += any(fixed[c["n"]:])
                 asm["constraint-handed"] += a.split(" ")[7] != "none"
+                asm["default-initial-guess"] += c["params"] is None
         if c["op"] == "likwin":
             d = window_depth(c)
             deep["cases"] += 1
